@@ -142,7 +142,8 @@ fn valid_trail(gs: &[G], next_id: &mut u16, trail: &[u16], pos: usize) -> Vec<us
     cur
 }
 
-fn programs(quick: bool) -> Vec<Program> {
+fn programs(level: u8) -> Vec<Program> {
+    let quick = level == 0;
     let x = T::V(0);
     let y = T::V(1);
     let z = T::V(2);
@@ -212,6 +213,33 @@ fn programs(quick: bool) -> Vec<Program> {
                     }
                 }
             }
+        }
+    }
+    // deepest tier: 4-statement sequences over the whole alphabet, 5-statement sequences of
+    // the first eight
+    if level >= 2 {
+        for a in 0..n {
+            for b in 0..n {
+                for c in 0..n {
+                    for d in 0..n {
+                        if a == b || a == c || a == d || b == c || b == d || c == d || (a < 10 && b < 10 && c < 10 && d < 10) {
+                            continue;
+                        }
+                        out.push(Program { nq: 3, body: vec![stmts[a].clone(), stmts[b].clone(), stmts[c].clone(), stmts[d].clone()] });
+                    }
+                }
+            }
+        }
+        let k = 8;
+        let idx: Vec<usize> = (0..k).collect();
+        for perm5 in crate::e4::product(&idx, 5) {
+            let mut sorted = perm5.clone();
+            sorted.sort();
+            sorted.dedup();
+            if sorted.len() != 5 {
+                continue;
+            }
+            out.push(Program { nq: 3, body: perm5.iter().map(|i| stmts[*i].clone()).collect() });
         }
     }
     // with a conde of two arms
@@ -370,9 +398,9 @@ fn check(p: &Program, index: usize, d: usize) -> (Vec<Violation>, u64, bool) {
 pub fn run(ctx: &mut Ctx) {
     let quick = ctx.quick();
     let d = if quick { 1 } else { 2 };
-    ctx.set("rule", json!("E3 x E2: all ordered sequences of 2-3 statements (thorough: also all 4-statement sequences of the first ten, and a 14-statement alphabet) from an alphabet of == / != goals (incl. subsuming and multi-binding disequalities), sequences containing a two-arm conde, and FD programs, run with an instrumented User type; an fngoal probe before and after every statement and every answer state check: with_constraint - take_constraint == number of stored constraints; for every successful `==` process_extension was called once with exactly the bindings unify_rec adds from the same state; the statements recorded in an answer's (per-branch) user state form one path of the program. Each program under every schedule of the store iteration sites with <= d deviations. distinct_nontrivial = programs whose answers carry stored constraints."));
+    ctx.set("rule", json!("E3 x E2: all ordered sequences of 2-3 statements of a 14-statement alphabet and all 4-statement sequences of the first ten (thorough: all 4-statement sequences of the alphabet and all 5-statement sequences of the first eight) from an alphabet of == / != goals (incl. subsuming and multi-binding disequalities), sequences containing a two-arm conde, and FD programs, run with an instrumented User type; an fngoal probe before and after every statement and every answer state check: with_constraint - take_constraint == number of stored constraints; for every successful `==` process_extension was called once with exactly the bindings unify_rec adds from the same state; the statements recorded in an answer's (per-branch) user state form one path of the program. Each program under every schedule of the store iteration sites with <= d deviations. distinct_nontrivial = programs whose answers carry stored constraints."));
     ctx.set("deviation_bound", json!(d));
-    let progs = programs(quick);
+    let progs = programs(if quick { 1 } else { 2 });
     let sel: Vec<usize> = match &ctx.replay {
         Some(r) if r.family == "c22" => vec![r.index],
         Some(_) => vec![],
